@@ -398,6 +398,29 @@ func init() {
 		}
 		return "ok"
 	}
+	// ReorgDrop2: the node's last two momentums are abandoned for a longer branch of a second producer that misses the slot
+	// of the first of them (three momentums). When the two abandoned momentums straddle an epoch end, the statistics of the
+	// finished epoch (produced / missed momentums) change although the node had already closed it.
+	ops.Extra["ReorgDrop2"] = func(n *vnode.Node, o ops.Op) string {
+		H := n.Height()
+		if H < 4 {
+			return "too-short"
+		}
+		q := vnode.New(vnode.Options{Dir: n.Opts.Dir + "-drop2"})
+		defer q.Destroy()
+		if _, err, pan := q.InsertChain(vnode.CloneBatch(n.Range(2, H-2))); err != nil || pan != nil {
+			return "err:prefix"
+		}
+		for i, skip := range []int{1, 0, 0} {
+			if err := q.ProduceMomentumOnly(skip); err != nil {
+				return fmt.Sprintf("err:produce%d", i)
+			}
+		}
+		if _, err, pan := n.InsertChain(vnode.CloneBatch(q.Range(H-1, q.Height()))); err != nil || pan != nil {
+			return "err:switch"
+		}
+		return "ok"
+	}
 	// M3: three momentums in a row (macro step so that epoch boundaries are reachable inside the depth bound)
 	ops.Extra["M3"] = func(n *vnode.Node, o ops.Op) string {
 		for i := 0; i < 3; i++ {
@@ -444,6 +467,7 @@ func alphabet(thorough bool) []ops.Op {
 		{K: "Call", S: "pillar-collect", A: 10},
 		{K: "Q"},
 		{K: "RevokeP3"},
+		{K: "ReorgDrop2"},
 	}
 	if thorough {
 		a = append(a,
@@ -509,7 +533,9 @@ func check(c *xs.Ctx, r *xs.Result, s *hx.Step, prev *[2]*snapshot, leaf bool) b
 			ok = false
 			continue
 		}
-		if prev[vi] != nil && !pool {
+		// history-monotonic comparisons (cursor, credited totals) hold along one chain; a reorganisation legitimately takes
+		// settlements back, so the comparison starts afresh after it
+		if prev[vi] != nil && !pool && s.Op.K != "ReorgDrop2" {
 			if k, msg := compare(prev[vi], snap); k != "" {
 				r.Violate("C11:"+k, hx.Describe(s)+" ["+view+"]: "+msg, rep)
 				ok = false
